@@ -206,12 +206,15 @@ def cases(M):
             near = ti
         else:
             y, mo = r.randrange(1990, 2035), r.randrange(1, 13)
+            if j % 10 == 3:
+                y = r.choice((1200, 1400, 2600, 3000, 5000, 9900, 60))      # far from the epoch (float timestamps lose the microseconds there)
             d = min(r.choice((1, 15, 28, 29, 30, 31)), cal.dim(y, mo))
             u = wall_us(dt.datetime(y, mo, d, r.randrange(24), r.randrange(60), r.randrange(60), r.choice((0, 999999))))
         if not gen.ok_instant(u, 8000):
             continue
         yield {"date": isdate, "unit": unit, "step": step, "steps": steps, "z": zn, "u": u, "near": near,
-               "extra": r.choice((None, None, ("seconds", r.randrange(1, 3)), ("hours", r.randrange(1, 3)), ("days", r.randrange(1, 3)))),
+               "extra": r.choice((None, None, ("seconds", r.randrange(1, 3)), ("hours", r.randrange(1, 3)), ("days", r.randrange(1, 3)),
+                                  ("microseconds", -1), ("microseconds", 1), ("microseconds", -1))),
                "mode": r.choice(("fwd", "inv", "abs-inv", "abs-fwd")), "naive": j % 7 == 0}
 
 
